@@ -716,6 +716,217 @@ def run_messages(chk, rec, quick):
     chk.cov["streams"]["send"] = len(todo)
 
 
+# ---- sequences of sends through one Producer (per-message state: nothing is shared between Messages)
+
+SEQ_QUEUES = ["q1", "q2", "q3"]
+
+
+def gen_seq_message(rng, i):
+    """one Message of a sequence, built the way the engine builds them: mostly with the constructor's default
+    application properties (`Message(body, content_type=...)`), the subject given afterwards (`message.subject = q`, as
+    EventDispatcher.publish does), in the constructor, or not at all; some with explicit properties (received
+    messages, notifications, task requests, callbacks)"""
+    style = rng.choice(["engine", "engine", "engine", "ctor", "explicit", "explicit-none"])
+    mc = {"body": "m%d" % i, "style": style, "subject": rng.choice([None, None, "q1", "q2", "q3", "q2"]),
+          "content_type": rng.choice(["application/json", None]),
+          "message_id": rng.choice([None, "id-%d" % i]), "correlation_id": rng.choice([None, None, "c-%d" % i]),
+          "reply_to": rng.choice([None, None, "q3"]), "expiration": rng.choice([None, None, None, 60000]),
+          "threadsafe": rng.random() < 0.45}
+    if style == "explicit":
+        mc["properties"] = rng.choice([{}, {"k": "v%d" % i}, {"uber-trace-id": "1:2:3:%d" % i}])
+    return mc
+
+
+def gen_sequence(rng):
+    n = rng.randint(2, 6)
+    msgs = [gen_seq_message(rng, i) for i in range(n)]
+    if rng.random() < 0.5:
+        # the shapes that matter most: a Message with default properties and a subject, then one with default properties
+        # and none; a pending (threadsafe) start for one queue, then a publish for another
+        a, b = rng.sample(range(n), 2) if n > 2 else (0, 1)
+        a, b = min(a, b), max(a, b)
+        msgs[a].update(style="engine", subject=rng.choice(["q2", "q3"]), threadsafe=rng.random() < 0.6)
+        msgs[a].pop("properties", None)
+        msgs[b].update(style="engine", subject=rng.choice([None, None, "q1", "q3"]))
+        msgs[b].pop("properties", None)
+    # the steps: every message is sent in order; a threadsafe send is published when its callback is run, later
+    steps = []
+    pending = []
+    fifo = rng.random() < 0.7
+    for i, mc in enumerate(msgs):
+        steps.append(["send", i])
+        if mc["threadsafe"]:
+            pending.append(i)
+        while pending and rng.random() < 0.35:
+            steps.append(["flush", pending.pop(0 if fifo else rng.randrange(len(pending)))])
+    while pending:
+        steps.append(["flush", pending.pop(0 if fifo else rng.randrange(len(pending)))])
+    return {"kind": "sendseq", "target": rng.choice(["q1", "q1", ""]), "messages": msgs, "steps": steps}
+
+
+def seq_proto(mc):
+    """the message as the model is told about it: what this one Message was given, nothing else"""
+    props = mc.get("properties") or {}
+    return {"body": mc["body"], "properties": props, "subject": mc["subject"], "content_type": mc["content_type"],
+            "message_id": mc["message_id"], "correlation_id": mc["correlation_id"], "reply_to": mc["reply_to"],
+            "expiration": expiry_proto(mc["expiration"])}
+
+
+def impl_sequence(layer, case):
+    """build and send the messages in order, run the deferred publishes where the steps say; returns what went on the
+    wire, in order (the broker's snapshot of every publish), and what each queue's consumer was handed"""
+    from pika import connection as pconn
+    Message = layer.mod.Message
+    arrived = []
+    for q in SEQ_QUEUES:
+        layer.consumer(q + "; {\"node\": {\"durable\": true}}", lambda m, _q=q: arrived.append((_q, m)))
+    p = layer.producer(case["target"])
+    conn = layer.session.channel.connection
+    log0 = len(layer.broker.log)
+    timers = {}
+    for st in case["steps"]:
+        i = st[1]
+        if st[0] == "send":
+            mc = case["messages"][i]
+            kw = {k: mc[k] for k in ("content_type", "correlation_id", "reply_to", "expiration") if mc[k] is not None}
+            if mc["style"] == "explicit":
+                kw["properties"] = copy.deepcopy(mc["properties"])
+            elif mc["style"] == "explicit-none":
+                kw["properties"] = None
+            if mc["style"] == "ctor":
+                m = Message(mc["body"], subject=mc["subject"], **kw)
+            else:
+                m = Message(mc["body"], **kw)
+                if mc["subject"] is not None:
+                    m.subject = mc["subject"]
+            if mc["message_id"] is not None:
+                m.message_id = mc["message_id"]              # as EventDispatcher.publish: an attribute set afterwards
+            before = set(id(t) for t in pconn.WHEEL.live(owner=conn))
+            p.send(m, threadsafe=mc["threadsafe"])
+            if mc["threadsafe"]:
+                new = [t for t in pconn.WHEEL.live(owner=conn) if id(t) not in before]
+                if len(new) != 1:
+                    raise RuntimeError("a threadsafe send queued %d callbacks" % len(new))
+                timers[i] = new[0]
+        else:
+            t = timers.pop(i)
+            t.fired = True
+            t.callback()
+    wire = []
+    for fr in layer.broker.log[log0:]:
+        if fr["op"] == "publish" and fr["conn"] == conn.ident:
+            body = fr["body"].decode("utf8")
+            wire.append({"i": int(body[1:]) if body[1:].isdigit() else -1,
+                         "frame": {"exchange": fr["exchange"], "routing_key": fr["routing_key"], "body": body,
+                                   "mandatory": fr["mandatory"], "props": fr["props"]},
+                         "routed_to": fr["queues"]})
+    while True:
+        ready = layer.broker.ready()
+        if not ready:
+            break
+        layer.broker.deliver(ready[0][0], ready[0][1])
+    if layer.transport == "asyncio":
+        Layer.loop.run_until_complete(asyncio.sleep(0))
+    got = {}
+    for q, m in arrived:
+        d = message_dict(m)
+        got.setdefault(d["body"], []).append((q, d))
+    return wire, got
+
+
+def run_sequences(chk, rec, quick):
+    n = 700 if quick else 8000
+    rng = chk.rng
+    cases = [c for c in common.load_corpus("C19") if c.get("kind") == "sendseq"] + [gen_sequence(rng) for _ in range(n)]
+    rows, lines = [], []
+    for case in cases:
+        order = [st[1] for st in case["steps"] if (st[0] == "flush") or not case["messages"][st[1]]["threadsafe"]]
+        for tr in TRANSPORTS:
+            layer = Layer(tr)
+            c = dict(case, transport=tr)
+            try:
+                wire, got = impl_sequence(layer, case)
+            except Exception as e:
+                frames = __import__("traceback").extract_tb(e.__traceback__)
+                if not any(os.path.abspath(f.filename).startswith(os.path.abspath(common.REPO_PY) + os.sep) for f in frames):
+                    raise
+                chk.count("sendseq|exc|" + cj(c), True)
+                chk.report("impl-violates-law", c, impl="%s: %s" % (type(e).__name__, e), classify=classify,
+                           law="send_sequence_pointwise: every message of the sequence is sent (it raised instead)")
+                continue
+            tgt = {"exchange": "", "subject": case["target"], "queues": SEQ_QUEUES}
+            lines.append("amqp\tsendseq\t%s\t%s\t%s\t%s" % (tr, pj(tgt), pj([seq_proto(m) for m in case["messages"]]), pj(order)))
+            rows.append((c, order, wire, got))
+    answers = common.driver(lines, shards=8)
+    for (c, order, wire, got), ans in zip(rows, answers):
+        msgs = c["messages"]
+        chk.count("sendseq|" + cj(c), any(m["threadsafe"] for m in msgs), n=len(msgs))
+        chk.dist("sendseq.length.%d" % len(msgs))
+        chk.dist("sendseq.pending_at_once.%d" % max(
+            [0] + [sum(1 for j in range(k + 1) if c["steps"][j][0] == "send" and msgs[c["steps"][j][1]]["threadsafe"]) -
+                   sum(1 for j in range(k + 1) if c["steps"][j][0] == "flush") for k in range(len(c["steps"]))]))
+        for m in msgs:
+            chk.dist("sendseq.message.%s.%s" % (m["style"], "subject" if m["subject"] else "no-subject"))
+        m = parse_answer(ans)
+        if m[0] != "ok":
+            chk.dist("sendseq.unsupported")
+            continue
+        # the law in the property's words, on the implementation alone: message i goes out with its own subject as routing
+        # key (the producer's default when it has none) and its own application properties, and arrives so, once
+        bad = None
+        if [w["i"] for w in wire] != order:
+            bad = ("published", [w["i"] for w in wire], "expected order", order)
+        for w in wire:
+            if bad:
+                break
+            mc = msgs[w["i"]]
+            want_h = dict(mc.get("properties") or {})
+            if mc["subject"]:
+                want_h["x-amqp-0-9-1.subject"] = mc["subject"]
+            want_rk = mc["subject"] or c["target"]
+            fr = w["frame"]
+            if fr["routing_key"] != want_rk or fr["props"]["headers"] != want_h or fr["exchange"] != "":
+                bad = ("message %d on the wire" % w["i"], {"routing_key": fr["routing_key"], "headers": fr["props"]["headers"]},
+                       "its own", {"routing_key": want_rk, "headers": want_h})
+                break
+            arr = got.get(mc["body"], [])
+            want_q = [want_rk] if want_rk in SEQ_QUEUES else []
+            if [q for q, _ in arr] != want_q:
+                bad = ("message %d arrived at" % w["i"], [q for q, _ in arr], "expected", want_q)
+                break
+            for q, d in arr:
+                if d["properties"] != want_h or d["subject"] != (mc["subject"] or None) or \
+                        d["correlation_id"] != mc["correlation_id"] or d["reply_to"] != mc["reply_to"] or \
+                        d["message_id"] != mc["message_id"]:
+                    bad = ("message %d delivered as" % w["i"], d, "sent as", mc)
+        if bad:
+            chk.report("impl-violates-law", c, impl=bad, classify=classify,
+                       law="send_sequence_pointwise / message_mapping_roundtrip: in a sequence of sends (some deferred to the "
+                           "connection's loop) every message is published, routed and delivered with its own subject and "
+                           "properties, whatever was built or sent before it")
+            continue
+        # ... and against the model's sendSeq, frame by frame and delivery by delivery
+        ok = len(m[1]) == len(wire)
+        for w, x in zip(wire, m[1]):
+            if not ok:
+                break
+            ok = w["i"] == x["i"] and cj(w["frame"]) == cj(x["frame"]) and w["routed_to"] == x["routed_to"]
+            arr = got.get(w["frame"]["body"], [])
+            ok = ok and [q for q, _ in arr] == x["routed_to"]
+            for q, d in arr:
+                ok = ok and cj({k: v for k, v in d.items() if k != "tag"}) == \
+                    cj({k: x["delivered"][k] for k in d if k != "tag"})
+        if not ok:
+            chk.report("impl-differs-from-spec", c, impl={"wire": wire, "arrived": {b: [[q, d] for q, d in v] for b, v in got.items()}},
+                       model=m[1], classify=classify,
+                       law="send_sequence_pointwise: the frames of a sequence of sends and what the consumers are handed are the "
+                           "model's sendSeq (message i depends on message i only)")
+        elif len(chk.cov["samples"]) < 5 and sum(1 for x in msgs if x["threadsafe"]) >= 2:
+            chk.sample({"stream": "sendseq", "transport": c["transport"], "target": c["target"], "steps": c["steps"],
+                        "wire": [[w["i"], w["frame"]["routing_key"]] for w in wire]})
+    chk.cov["streams"]["sendseq"] = len(cases)
+
+
 def run_acks(chk, rec, quick):
     """k deliveries outstanding, one of them acknowledged in each of the layer's ways"""
     n = 500 if quick else 5000
@@ -1083,6 +1294,15 @@ class Affinity(object):
         self.n = {"deliver.start": 0, "deliver.later": 0, "deliver.reply": 0, "rpc": 0, "child.sync": 0, "child.async": 0,
                   "deliver.start.instance_queue": 0}
         self.consumers_of_start = set()
+        self.rest = {}            # execution -> (accepting connection, synchronous?, log length when handed over)
+        self.rest_acts = []
+        for k in ("rest.start", "rest.start_sync", "rest.deferred", "rest.deferred_overtaken"):
+            self.n[k] = 0
+
+    def expect_start(self, ea, via, sync, deferred):
+        """the REST front end of instance `via` accepted StartExecution (sync=False) / StartSyncExecution (sync=True) for
+        execution `ea` and handed the start event to EventDispatcher.publish (deferred: threadsafe=True)"""
+        self.rest[ea] = (self.s.instances[via].conn.ident, sync, len(self.s.broker.log), deferred)
 
     def num(self, ea):
         return self.execno.setdefault(ea, len(self.execno))
@@ -1165,6 +1385,26 @@ class Affinity(object):
                     if fr["props"].get("message_id") is None:
                         self.problems.append(("message_id", {"event": ev}))
                     e = self.num(ev["exec"])
+                    if ev["start"] and ev["exec"] in self.rest:
+                        # a start event of the REST front end: where it goes is decided by the accepting instance and the
+                        # call (StartExecution: shared queue; StartSyncExecution: that instance's queue), whenever the
+                        # deferred publish is carried out and whatever was published in between
+                        via_c, sync, n0, deferred = self.rest.pop(ev["exec"])
+                        want = self.instq[via_c] if sync else self.shared
+                        header = (fr["props"].get("headers") or {}).get("x-amqp-0-9-1.subject")
+                        self.n["rest.start_sync" if sync else "rest.start"] += 1
+                        if deferred:
+                            self.n["rest.deferred"] += 1
+                            if any(f["op"] == "publish" and f.get("conn") in self.idx for f in log[n0:fr["n"]]):
+                                self.n["rest.deferred_overtaken"] += 1
+                        if c != via_c or rk != want or header != rk:
+                            self.problems.append(("rest_start_queue", {
+                                "execution": ev["exec"], "call": "StartSyncExecution" if sync else "StartExecution",
+                                "accepted_by": via_c, "published_by": c, "routing_key": rk, "subject_header": header,
+                                "expected_queue": want, "deferred": deferred}))
+                        qcode = "shared" if rk == self.shared else [k for c2, k in self.idx.items() if self.instq[c2] == rk][0]
+                        self.rest_acts.append(["submitSync" if sync else "submit", self.idx[via_c], e, qcode])
+                        continue
                     if not ev["start"]:
                         if rk != self.instq[c]:
                             self.problems.append(("later_events_to_own_queue", {"event": ev, "publisher": c}))
@@ -1215,6 +1455,8 @@ class Affinity(object):
                         self.problems.append(("expiration", {"expiration": p.get("expiration")}))
                     self.rpc[corr] = c
         # the step as an action of the abstract routing model
+        self.acts.extend(self.rest_acts)
+        self.rest_acts = []
         if current is not None and current[0] == "start":
             self.acts.append(["deliverStart", self.num(current[1]["exec"]), self.idx[current[2]], outs.pop(current[2], [])])
         elif current is not None:
@@ -1240,33 +1482,68 @@ def check_acks(rec, since, engine_channels, problems):
     return n
 
 
-def run_one(scn, cfg, rng, rec, schedule=None, max_steps=1500):
-    """one run of a scenario under a configuration; returns (case, problems, monitor, sim)"""
+START_MODES = ["direct", "direct", "rest", "rest", "rest-sync", "rest-sync"]
+
+
+def run_one(scn, cfg, rng, rec, schedule=None, max_steps=1500, starts=None, upfront=None, vias=None):
+    """one run of a scenario under a configuration; returns (case, problems, monitor, sim).
+    Executions are started as the REST front end starts them: `direct` (the start event is published at once, shared
+    queue), `rest` (StartExecution handed over threadsafe: the publish is deferred to the instance's connection loop and is
+    a step of its own, so other events may be published while it is pending), `rest-sync` (StartSyncExecution: deferred,
+    the accepting instance's own queue).  The first start is made up front, the others at seeded points of the run
+    (pseudo-steps ("start", k) of the schedule)."""
     instances, qt, aio, n_exec = cfg
-    s, machines, vias = start_scn(scn, instances, qt, aio, n_exec, rng)
+    s, machines, drawn = start_scn(scn, instances, qt, aio, n_exec, rng)
+    vias = drawn if vias is None else vias
+    if starts is None:
+        starts = [rng.choice(START_MODES) for _ in vias]
     mon = Affinity(s, qt, machines)
     m0 = rec.mark()
     eas = []
-    for k, via in enumerate(vias):
-        ea = s.start_execution(ARN + "m1", json.loads(json.dumps(scn.data)), name="e%d" % (k + 1), via=via)
+    trace = []
+
+    def start(k):
+        mode = starts[k]
+        mon.expect_start(":".join((ARN + "m1").split(":")[:5] + ["execution", (ARN + "m1").split(":")[6], "e%d" % (k + 1)]),
+                         vias[k], mode == "rest-sync", mode != "direct")
+        ea = s.start_execution(ARN + "m1", json.loads(json.dumps(scn.data)), name="e%d" % (k + 1), via=vias[k],
+                               threadsafe=mode != "direct", use_shared_queue=mode != "rest-sync")
         eas.append(ea)
+        trace.append(("start", k))
         mon.step(None, submit=True)
+
     g = None
     if schedule is not None:
+        if not any(st[0] == "start" for st in schedule):
+            for k in range(len(vias)):
+                start(k)
         for st in schedule:
+            if st[0] == "start":
+                start(st[1])
+                continue
             try:
                 s.do(tuple(st))
             except KeyError:
                 break
+            trace.append(tuple(st))
             mon.step(tuple(st))
     else:
+        start(0)
+        if upfront is None:
+            upfront = rng.random() < 0.5
         while s.steps < max_steps:
-            if all(explore.terminal_seen(s, ea) for ea in eas) and g is None:
+            if len(eas) < len(vias) and (upfront or rng.random() < 0.3):
+                start(len(eas))
+                continue
+            if len(eas) == len(vias) and all(explore.terminal_seen(s, ea) for ea in eas) and g is None:
                 g = s.steps + 30
             if g is not None and s.steps >= g:
                 break
             en = explore.interesting(s)
             if not en:
+                if len(eas) < len(vias):
+                    start(len(eas))
+                    continue
                 if s.quiescent():
                     break
                 en = explore.interesting(s, include_heartbeat=True)
@@ -1274,7 +1551,10 @@ def run_one(scn, cfg, rng, rec, schedule=None, max_steps=1500):
                     break
             st = en[rng.randrange(len(en))]
             s.do(st)
+            trace.append(st)
             mon.step(st)
+    if mon.rest and not s.errors and s.steps < max_steps and schedule is None:
+        mon.problems.append(("rest_start_published", {"never published": sorted(mon.rest)}))
     problems = list(mon.problems)
     chans = set()
     for inst in s.instances:
@@ -1284,8 +1564,9 @@ def run_one(scn, cfg, rng, rec, schedule=None, max_steps=1500):
     case = {"kind": "engine", "scenario": scn.name, "machine": scn.machine, "input": scn.data, "plans": scn.plans,
             "delays": [[list(k) if isinstance(k, tuple) else k, v] for k, v in scn.delays.items()], "sm_type": scn.sm_type,
             "extra_machines": scn.extra.get("machines"), "fail_payload": scn.extra.get("fail_payload"),
-            "config": {"instances": instances, "queue_type": qt, "asyncio": aio, "executions": n_exec, "vias": vias},
-            "schedule": [list(x) for x in s.trace]}
+            "config": {"instances": instances, "queue_type": qt, "asyncio": aio, "executions": n_exec, "vias": vias,
+                       "starts": starts},
+            "schedule": [list(x) for x in trace]}
     return case, problems, mon, s
 
 
@@ -1297,6 +1578,20 @@ def run_affinity(chk, rec, quick):
     lines, meta = [], []
     k = 0
     totals = {}
+    # REST-originated start events left pending while something else is published, on every configuration: a
+    # StartSyncExecution and a StartExecution accepted by the same instance, both pending, either order; a StartExecution
+    # pending while the instance carries out state transitions of another execution
+    T = engine_props.T
+    pend = explore.Scenario("rest-starts-pending", {"StartAt": "A", "States": {"A": {"Type": "Pass", "Next": "B"}, "B": T("f1")}},
+                            {"x": 1}, {"f1": [("ok",)]}, {"f1": 5})
+    forced = []
+    for (n, qt, aio) in combos:
+        for starts in (["rest-sync", "rest"], ["rest", "rest-sync"], ["direct", "rest"], ["direct", "rest-sync"],
+                       ["rest-sync", "direct"], ["rest", "rest-sync", "rest"]):
+            for _ in range(1 if quick else 6):
+                via = rng.randrange(n)
+                forced.append((pend, (n, qt, aio, len(starts)), dict(starts=starts, upfront=True, vias=[via] * len(starts))))
+    todo = list(forced)
     for scn in scns + gen:
         hand = not scn.name.startswith("gen")
         reps = (8 if quick else 36) if hand else 1
@@ -1305,8 +1600,13 @@ def run_affinity(chk, rec, quick):
         for _ in range(reps):
             n, qt, aio = combos[k % len(combos)]
             k += 1
-            n_exec = 1 if rng.random() < 0.3 else 2
-            case, problems, mon, s = run_one(scn, (n, qt, aio, n_exec), rng, rec)
+            todo.append((scn, (n, qt, aio, None), {}))
+    for scn, (n, qt, aio, n_exec), kw in todo:
+        hand = not scn.name.startswith("gen")
+        if True:
+            if n_exec is None:
+                n_exec = rng.choice([1, 2, 2, 3])
+            case, problems, mon, s = run_one(scn, (n, qt, aio, n_exec), rng, rec, **kw)
             chk.count("engine|" + cj([scn.name if hand else scn.machine, case["config"], case["schedule"]]),
                       mon.n["deliver.later"] > 0, n=max(1, mon.n["deliver.start"] + mon.n["deliver.later"] + mon.n["deliver.reply"]))
             chk.dist("engine.instances.%d" % n)
@@ -1340,7 +1640,7 @@ def run_affinity(chk, rec, quick):
                        "(action %s is not enabled there)" % (p[1] if len(p) > 1 else "?"))
     for kk, v in totals.items():
         chk.dist("engine.total." + kk, v)
-    chk.cov["streams"]["engine.scenarios"] = len(scns) + len(gen)
+    chk.cov["streams"]["engine.scenarios"] = len(scns) + len(gen) + 1
     chk.cov["streams"]["engine.runs"] = len(meta)
 
 
@@ -1374,7 +1674,8 @@ def run(chk):
     rec = Recorder().install()
     try:
         for stream, fn in (("start-up", run_startup), ("addresses", run_addresses), ("messages", run_messages),
-                           ("acknowledgement", run_acks), ("engine runs", run_affinity)):
+                           ("send sequences", run_sequences), ("acknowledgement", run_acks),
+                           ("engine runs", run_affinity)):
             rec.calls = []
             guarded(chk, stream, fn, chk, rec, quick)
     finally:
@@ -1388,9 +1689,14 @@ def run(chk):
         "oddities and single-character mutations), as Consumer and as Producer on both transports, frames and gained entities; "
         "messages: field combinations x expiration forms (int, float, numeric / padded / exponent text, negative, non-numeric, "
         "inf, nan, huge, None) x mandatory x threadsafe x constructor defaults, sent and delivered or returned (return callback: "
-        "plain / coroutine) on both transports; acknowledgement: 1-5 outstanding deliveries x the layer's four ways to acknowledge "
-        "x threadsafe; engine: the engine scenario corpus + child-execution scenarios + generated machines, 1-2 concurrent "
-        "executions, seeded random schedules, every configuration in turn, laws evaluated on every delivery / publish / ack. "
+        "plain / coroutine) on both transports; send sequences: 2-6 Messages built as the engine builds them (default / "
+        "explicit properties, subject afterwards / in the constructor / none), threadsafe sends left pending and flushed in FIFO or "
+        "arbitrary order, every publish snapshot, queue reached and delivered Message against the model's sendSeq; "
+        "acknowledgement: 1-5 outstanding deliveries x the layer's four ways to acknowledge "
+        "x threadsafe; engine: the engine scenario corpus + child-execution scenarios + generated machines, 1-3 concurrent "
+        "executions started directly or REST-style (deferred publish to the shared / the accepting instance's queue, pending "
+        "while other events are published; all pairs of pending starts on every configuration), seeded random schedules, every "
+        "configuration in turn, laws evaluated on every delivery / publish / ack. "
         "distinct = distinct canonical case; non-trivial = an open() that declares something on the session channel, a message "
         "with an expiration or properties, more than one outstanding delivery, a run with at least one later-event delivery")
     chk.cov["exhaustive"] = False
@@ -1464,12 +1770,28 @@ def replay(chk, path):
             vias = list(cfg["vias"])
             rng.randrange = lambda n, _v=vias: _v.pop(0) if _v else 0
             case, problems, mon, s = run_one(scn, (cfg["instances"], cfg["queue_type"], cfg["asyncio"], cfg["executions"]), rng, rec,
-                                            schedule=c["schedule"])
+                                            schedule=c["schedule"],
+                                            starts=cfg.get("starts") or ["direct"] * cfg["executions"])
             for law, d in problems:
                 print("PROBLEM", law, json.dumps(d, default=str)[:400])
             print("actions:", pj(mon.acts))
             print("model  :", common.driver(["amqp\troute\t" + pj(mon.acts)])[0])
             print("counts :", mon.n)
+        elif kind == "sendseq":
+            for tr in (TRANSPORTS if c.get("transport") in (None, "both") else (c["transport"],)):
+                order = [st[1] for st in c["steps"] if (st[0] == "flush") or not c["messages"][st[1]]["threadsafe"]]
+                wire, got = impl_sequence(Layer(tr), c)
+                print(tr, "steps :", c["steps"])
+                for w in wire:
+                    print(tr, "impl  : message", w["i"], "routing_key", repr(w["frame"]["routing_key"]), "headers",
+                          w["frame"]["props"]["headers"], "->", w["routed_to"],
+                          "arrived", [(q, d["subject"], d["properties"]) for q, d in got.get(w["frame"]["body"], [])])
+                tgt = {"exchange": "", "subject": c["target"], "queues": SEQ_QUEUES}
+                ans = parse_answer(common.driver(["amqp\tsendseq\t%s\t%s\t%s\t%s" % (
+                    tr, pj(tgt), pj([seq_proto(m) for m in c["messages"]]), pj(order))])[0])
+                for x in (ans[1] if ans[0] == "ok" else []):
+                    print(tr, "model : message", x["i"], "routing_key", repr(x["frame"]["routing_key"]), "headers",
+                          x["frame"]["props"]["headers"], "->", x["routed_to"])
         elif kind == "stream-aborted":
             print("a whole stream ended with an exception out of the code under test; rerun the check "
                   "(VERIF_SEED=%s) to see it again:" % rp.get("seed"))
